@@ -23,11 +23,12 @@ RULE = ("stress cases: random histories of add/remove/move/query on the real Cel
         "damaged side chains) run end to end with the in-vivo monitor on every neighbour query; distinct = "
         "(call site, cell size) pairs with at least one query plus distinct structures"
         ' Round-2 additions: long real stretches; pKa route (hydrogens removed and rebuilt between the debump passes) on inputs that already carry hydrogens.'
-        " Round-3/4 additions: the monitor's reference population no longer depends on Cells.assign_cells (falls back to the biomolecule of the run in progress).")
+        " Round-3/4 additions: the monitor's reference population no longer depends on Cells.assign_cells (falls back to the biomolecule of the run in progress)."
+        " Round-7 additions: distinct atoms with identical labels (stress histories reusing names; solvent whose numbering repeats).")
 ASSUMPTIONS = ["brute force over the atoms currently owned by residues is the ground truth for 'every atom'",
                "a query is judged at the moment it is made (under the code's own single thread)"]
-MIN = {"quick": {"stress_queries": 20000, "invivo_queries": 6000, "stress_moves_across_cells": 500, "pka_route_runs": 6},
-       "thorough": {"stress_queries": 600000, "invivo_queries": 150000, "stress_moves_across_cells": 20000, "pka_route_runs": 300}}
+MIN = {"quick": {"stress_queries": 20000, "invivo_queries": 6000, "stress_moves_across_cells": 500, "pka_route_runs": 6, "runs_with_repeating_water_labels": 5},
+       "thorough": {"stress_queries": 600000, "invivo_queries": 150000, "stress_moves_across_cells": 20000, "pka_route_runs": 300, "runs_with_repeating_water_labels": 300}}
 SHARDS_PER_JOB = 4
 
 
@@ -48,7 +49,7 @@ def cases(tier, seed):
 
     for spec in workload.standard_cases(tier, seed, npipe, npipe, opts_fn=opts, frag_share=0.4,
                                         p={"dense_prob": 0.8, "damage_prob": 0.25, "crowd_prob": 0.25, "waters": [0, 3, 6, 10],
-                                           "hydrogens": ["none", "none", "all", "some"],
+                                           "hydrogens": ["none", "none", "all", "some"], "water_repeat_prob": 0.3,
                                            "na_prob": 0.08}):
         spec["kind"] = "pipe"
         out.append(spec)
@@ -100,7 +101,10 @@ def run_stress(spec, res):
         a = Atom()
         cls = rng.choice(classes)
         a.x, a.y, a.z = (_coord(rng, size, rng.choice([cls, cls, "uniform"])) for _ in range(3))
-        a.name = f"X{len(pool)}"
+        # labels are not identities: a third of the histories reuse a handful of names (and all stress atoms share
+        # the residue fields), as solvent with wrapped numbering does
+        a.name = f"X{len(pool) % 5}" if spec["seed"] % 3 == 0 else f"X{len(pool)}"
+        a.serial = len(pool)
         pool.append(a)
         return a
 
@@ -199,6 +203,8 @@ def run_pipe(spec, res):
         res.count(f"site:{site}", n)
     if q:
         res.nt("pipe", spec["w"], spec["seed"])
+    if (m.get("meta") or {}).get("water_labels_repeat"):
+        res.count("runs_with_repeating_water_labels")
     seen = set()
     for e in events:
         key = f"invivo/size{e['size']}/{e['kind']}/{e['cause']}/{e['role']}"
